@@ -218,6 +218,13 @@ def run(ck):
     n1 = frame_size(ck, agg, nn)
     n2 = validate(ck, agg, nn)
     n3 = receive(ck, agg, nn)
+    # 'reassembled transparently': the reassembly rules of C06 (identity, sequence, completeness, copies)
+    from . import c06, c13
+    c06.run_core(ck, agg)
+    # network-internal NETWORK_ACK frames are returned to the waiting writer, never handed to the application (= R13.4)
+    nn2 = net.NetNode(ck, "rf24_network", "RF24Network")
+    nn2.merge_funcs = set()
+    c13.receive_rule(ck, agg, nn2)
     agg.flush()
     ck.floor("R05.1", "single-frame transmissions", n1, 1)
     ck.floor("R05.2", "validation scenarios and public senders", n2, 8)
